@@ -102,6 +102,30 @@ NEEDS = {
  "C20-r2m1": ("osmapi/datasource.go: Client and Limiter both taken from the fallback datasource when Client is nil (two sites)", "a custom Datasource with a Limiter and a nil Client"),
  "C20-r2m2": ("osmapi/options.go At(): time.RFC3339 in the value's own zone", "At(t) with a non-UTC time"),
  "C20-r2m3": ("osmapi/way.go Ways: single-id lists delegated to Way", "Ways with exactly one id (wrong path; 0 or >=2 ways in the response become an error)"),
+ "C01-r3m1": ("osmpbf way decoding: node locations (Way fields 9/10) resolved against refs only when refs precede them on the wire", "a way with embedded node locations written with field 8 (refs) after fields 9/10 - no proto.Marshal-based encoder does that"),
+ "C01-r3m2": ("osmpbf/decode.go: a Read returning (n>0, io.EOF) loses the final block", "a reader that reports io.EOF together with the last bytes (iotest.DataErrReader, HTTP bodies with Content-Length, compress readers)"),
+ "C01-r3m3": ("osmpbf/decode.go: blob size limit lowered to 16 MiB", "one fileblock with 16 MiB < datasize < 32 MiB"),
+ "C02-r3m1": ("osmpbf/decode_data.go: date_granularity of the previous block kept when a block omits the field", "a block with explicit date_granularity != 1000 and a later block without the field on the same decoder goroutine (distance a multiple of procs)"),
+ "C02-r3m2": ("osmpbf/decode_data.go: object queue grown past 8000 entries is reused for the decoder's next block", "a block with > 8000 objects, a later block on the same decoder goroutine, and a consumer still inside the earlier block (slow consumer)"),
+ "C02-r3m3": ("osmpbf/decode.go: round-robin index shadowed in the reader loop after a headerless start", "a stream starting at a data block (resume), procs >= 2 and >= 3 blocks"),
+ "C06-r3m1": ("osmpbf/decode_data.go: a block without string table reuses the cached table of the decoder's previous block", "a data block whose stringtable field is missing while its objects reference strings, decoded by a goroutine that already decoded an intact block (procs=1, or distance a multiple of procs)"),
+ "C06-r3m2": ("osmpbf/scanner.go: the error of a failed Header() is forgotten and the following Scan restarts the decoder", "Header() called before the first Scan on input damaged in its first fileblock, then Scan"),
+ "C06-r3m3": ("osmpbf/decode.go getData: inflate capped at exactly the declared raw_size", "a zlib blob whose declared raw_size is smaller than the real size and equals the offset of a top-level field boundary of the inflated message"),
+ "C07-r3m1": ("osmxml/scanner.go: context checked once per Scan call", "cancellation arriving during a Scan call (from Read or another goroutine) while the input holds a long run of non-object tokens"),
+ "C07-r3m2": ("osmpbf/decode.go: decoder goroutines exit as soon as the context is done instead of draining their input", "a stream starting at a data block, procs > 10 (unbuffered inputs) and a cancel/Close issued before the first Scan: Close never returns"),
+ "C07-r3m3": ("osmpbf/scanner.go Err: s.err == io.EOF became errors.Is(s.err, io.EOF)", "an underlying reader failing mid-block with an error that wraps io.EOF"),
+ "C08-r3m1": ("osmpbf/decode_data.go: SkipNodes also skips reading granularity/lat_offset/lon_offset", "SkipNodes=true, a way with embedded node locations, and a block with non-default granularity or offsets"),
+ "C08-r3m2": ("osmpbf/decode_data.go: WayNodes memory of a rejected way reused without clearing", "FilterWay rejects a way with embedded locations, the next accepted way of the same group has none and no more nodes than the rejected one"),
+ "C08-r3m3": ("osmpbf/decode_data.go: queue pre-sizing for unfiltered dense groups drops the block's earlier elements", "no node filter/skip, a block with > 8000 elements in which a dense group follows other kept elements"),
+ "C11-r3m1": ("annotate/internal/core/types.go FindVisible: commit times compared at whole-second granularity", "commit regime with sub-second commit instants and a child committed in the same wall-clock second as, but after, the parent version"),
+ "C11-r3m2": ("annotate/internal/core/compute.go: IgnoreMissingChildren checked before NotFound(err), swallowing every data source error", "IgnoreMissingChildren(true) and a data source failing with a non-not-found error for a child whose history exists (fault injection)"),
+ "C11-r3m3": ("update.go SortByIndex tie-break compares time.Time with != instead of Equal", "a parent version with > 12 updates, two versions of one child at the same instant, the two time values in different Locations"),
+ "C16-r3m1": ("internal/mputil Orientation: shoelace sum no longer translated to the ring's first vertex", "a ring a few 1e-7 degree steps across located far from lon=0/lat=0, with orientation annotations"),
+ "C16-r3m2": ("internal/mputil/join.go: way ends joined with a 1e-7 tolerance instead of exact equality", "two distinct way end vertices within one coordinate step (1e-7 degrees) of each other"),
+ "C16-r3m3": ("osmgeojson/convert.go wayToLineString: way treated as fully annotated when its first node carries a location", "a member way whose first node is annotated while a later node's location is only available as a node object"),
+ "C17-r3m1": ("osmgeojson/convert.go: node/way identity routed through the packed FeatureID", "node or way ids that are negative or >= 2^40 (outside the packed-id domain C10 names; the unchanged converter's membership index already collides there, so the check does not generate them)"),
+ "C17-r3m2": ("osmgeojson/convert.go: membership of relation-type members looked up through the way map", "a feature-producing relation that is itself a member of another relation, with no way of the same numeric id in the data"),
+ "C17-r3m3": ("osmgeojson/convert.go hasInterestingTags: nil check on the ignore map removed", "an element whose only interesting tags have the empty string as value"),
 }
 import re
 PKG_DIR = {"osm_test": ".", "osm": ".", "annotate_test": "annotate", "annotate": "annotate", "osmapi_test": "osmapi", "osmapi": "osmapi",
